@@ -1,34 +1,57 @@
-(** C08 — token interface of the model for the correspondence check. *)
+(** C08 — token interface of the model for the correspondence check.
+    The black-box run observes, per request, how many final and how many
+    Processing responses carry its id; the model computes them with [handle]
+    under the default oracle (the counts do not depend on the oracle:
+    [one_final_answer]). *)
 From Coq Require Import List Arith ZArith String Bool.
 From SV Require Import Common.Tok C08.Base C08.Gen C08.Model.
 Import ListNotations.
 Open Scope string_scope.
 Open Scope list_scope.
 
-Definition step (alive : bool) (op : list tok) : bool * list tok :=
+Definition W : Type := worker unit.
+Definition disp (v : unit) (_ : string) (_ : unit) : unit := v.
+Definition orc0 : oracle := mkOr 0 0 0 0 (fun _ => false) true true.
+
+Definition count_toks (out : list response) : list tok :=
+  [tn_nat (List.length (filter is_final out)); tn_nat (List.length (filter (fun p => negb (is_final p)) out))].
+
+Definition step (st : option W) (op : list tok) : option W * list tok :=
   match op with
   | TS name :: args =>
-    if name =? "worker" then (true, [])
-    else if name =? "send" then
-      match args with
-      | TS v :: _ => if alive then (alive, [tn_nat (answers_of v); TN 0]) else (alive, [TS "gone"])
-      | _ => (alive, [TS "badop"])
-      end
-    else if name =? "view" then (alive, if alive then [TN 1] else [TS "gone"])
-    else if name =? "stop" then
-      match args with
-      | [TS h] => if alive then (false, [TS "stopped"]) else (alive, [TS "gone"])
-      | _ => (alive, [TS "badop"])
-      end
-    else if name =? "end" then (alive, [TS "end"])
-    else (alive, [TS "badop"])
-  | _ => (alive, [TS "badop"])
+    if name =? "worker" then (Some (mkW tt 3%Z 3 None true), [])
+    else match st with
+    | None => (st, [TS "badop"])
+    | Some w =>
+      if name =? "send" then
+        match args with
+        | TS v :: _ =>
+          if w_alive w then
+            let '(w', out) := handle disp w (mkReq 0 v tt) orc0 in (Some w', count_toks out)
+          else (st, [TS "gone"])
+        | _ => (st, [TS "badop"])
+        end
+      else if name =? "view" then (st, if w_alive w then [TN 1] else [TS "gone"])
+      else if name =? "stop" then
+        match args with
+        | [TS h] =>
+          if w_alive w then
+            (* the stop's own answers are judged by the oracle of the driver (soft-stop
+               completion depends on the session table, which this model abstracts as EDrained) *)
+            (Some (mkW tt (w_base w) (w_slots w) None false), [TS "stopped"])
+          else (st, [TS "gone"])
+        | _ => (st, [TS "badop"])
+        end
+      else if name =? "end" then (st, [TS "end"])
+      else (st, [TS "badop"])
+    end
+  | _ => (st, [TS "badop"])
   end.
 
-Fixpoint run_from (alive : bool) (ops : list (list tok)) : list (list tok) :=
+Fixpoint run_from (st : option W) (ops : list (list tok)) : list (list tok) :=
   match ops with
   | [] => []
-  | op :: ops' => let '(a, o) := step alive op in o :: run_from a ops'
+  | op :: ops' => let '(a, o) := step st op in o :: run_from a ops'
   end.
 
-Definition run_case (ops : list (list tok)) : list (list tok) := run_from false ops.
+Definition run_case (ops : list (list tok)) : list (list tok) := run_from None ops.
